@@ -142,7 +142,10 @@ def parse_operations(
                         }
                     else:
                         resp_node_resolved = rn_node
-                    resps.append(parse_response(sc, resp_node_resolved, context, operation_id_for_promo=operation_id))
+                    # YAML documents may carry unquoted status keys (`200:` is loaded as an int)
+                    resps.append(
+                        parse_response(str(sc), resp_node_resolved, context, operation_id_for_promo=operation_id)
+                    )
 
                 op = IROperation(
                     operation_id=operation_id,
